@@ -247,7 +247,7 @@ func (v *VecDense) SetRawVector(a blas64.Vector) {
 // returns the number of elements it copied.
 func (v *VecDense) CopyVec(a Vector) int {
 	n := min(v.Len(), a.Len())
-	if v == a {
+	if v == a || n == 0 {
 		return n
 	}
 	if r, ok := a.(RawVectorer); ok {
